@@ -438,3 +438,136 @@ theorem run_inv : ∀ (ops : List Op) {s : Alloc} {a a' : Abs}, Inv s a → a.ru
       exact ih (step_inv h op hst).1 hr
 
 end AxVerif.Pages
+
+/-! ### facts behind `checkOwnership_sound` -/
+
+namespace AxVerif.Pages
+open AxVerif.BTree hiding Op Res
+open FileDump
+
+/-- `l` is what one meets following the `next` links of overflow-shaped pages from `a` until a page without successor:
+    every member is an overflow-shaped page (`link x = some _`), none is page 0, the last one has `next = none` -/
+def LinkPath (link : Nat → Option Nat) : Nat → List Nat → Prop
+  | a, [] => a = 0
+  | a, x :: xs => a = x ∧ x ≠ 0 ∧ ∃ n, link x = some n ∧ LinkPath link n xs
+
+theorem walkFree_path {link : Nat → Option Nat} : ∀ {fuel a : Nat} {l : List Nat},
+    walkFree link fuel a = some l → LinkPath link a l := by
+  intro fuel
+  induction fuel with
+  | zero =>
+    intro a l h
+    simp only [walkFree] at h
+    split at h
+    · next ha => cases h; exact ha
+    · cases h
+  | succ fuel ih =>
+    intro a l h
+    simp only [walkFree] at h
+    split at h
+    · next ha => cases h; exact ha
+    · next ha =>
+      split at h
+      · cases h
+      · next n hn =>
+        split at h
+        · next l' hl' =>
+          cases h
+          exact ⟨rfl, ha, n, hn, ih hl'⟩
+        · cases h
+
+/-- a chain accepted by `chainLinked` is a link path from its first page -/
+theorem chainLinked_path {link : Nat → Option Nat} : ∀ {c : List Nat}, chainLinked link c = true → (∀ x ∈ c, x ≠ 0) →
+    LinkPath link (c.headD 0) c := by
+  intro c
+  induction c with
+  | nil => intro _ _; rfl
+  | cons x xs ih =>
+    intro h hz
+    cases xs with
+    | nil =>
+      simp only [chainLinked, beq_iff_eq] at h
+      exact ⟨rfl, hz x (by simp), 0, h, rfl⟩
+    | cons y ys =>
+      simp only [chainLinked, Bool.and_eq_true, beq_iff_eq] at h
+      exact ⟨rfl, hz x (by simp), y, h.1, ih h.2 (fun z hzm => hz z (by simp [hzm]))⟩
+
+theorem linkPath_last_none {link : Nat → Option Nat} : ∀ {l : List Nat} {a : Nat}, LinkPath link a l → l ≠ [] →
+    link (lastD l) = some 0 := by
+  intro l
+  induction l with
+  | nil => intro a _ h; exact absurd rfl h
+  | cons x xs ih =>
+    intro a h _
+    obtain ⟨_, _, n, hn, hrest⟩ := h
+    cases xs with
+    | nil =>
+      simp only [LinkPath] at hrest
+      subst hrest
+      simpa [lastD] using hn
+    | cons y ys =>
+      rw [lastD_cons_cons]
+      exact ih hrest (by simp)
+
+/-- the two lists have the same length and are related position by position -/
+def AllRel {α β : Type} (R : α → β → Prop) : List α → List β → Prop
+  | [], [] => True
+  | x :: xs, y :: ys => R x y ∧ AllRel R xs ys
+  | _, _ => False
+
+theorem allSome_allRel {α β : Type} (g : α → Option β) : ∀ {l : List α} {r : List β},
+    FileDump.allSome (l.map g) = some r → AllRel (fun x y => g x = some y) l r := by
+  intro l
+  induction l with
+  | nil => intro r h; simp only [List.map_nil, FileDump.allSome, Option.some.injEq] at h; subst h; trivial
+  | cons x xs ih =>
+    intro r h
+    simp only [List.map_cons] at h
+    cases hg : g x with
+    | none => rw [hg] at h; simp [FileDump.allSome] at h
+    | some y =>
+      rw [hg] at h
+      simp only [FileDump.allSome] at h
+      split at h
+      · next r' hr' =>
+        cases h
+        exact ⟨hg, ih hr'⟩
+      · cases h
+
+theorem AllRel.length_eq {α β : Type} {R : α → β → Prop} : ∀ {l : List α} {r : List β}, AllRel R l r → l.length = r.length := by
+  intro l
+  induction l with
+  | nil => intro r h; cases r with
+    | nil => rfl
+    | cons _ _ => exact h.elim
+  | cons x xs ih => intro r h; cases r with
+    | nil => exact h.elim
+    | cons y ys => simp [ih h.2]
+
+theorem AllRel.get {α β : Type} {R : α → β → Prop} : ∀ {l : List α} {r : List β}, AllRel R l r →
+    ∀ (i : Nat) (hi : i < l.length) (hj : i < r.length), R l[i] r[i] := by
+  intro l
+  induction l with
+  | nil => intro r _ i hi; simp at hi
+  | cons x xs ih =>
+    intro r h i hi hj
+    cases r with
+    | nil => exact h.elim
+    | cons y ys =>
+      cases i with
+      | zero => exact h.1
+      | succ i => exact ih h.2 i (by simpa using hi) (by simpa using hj)
+
+/-- index uniqueness in a list of lists whose concatenation has no duplicate -/
+theorem flatten_nodup_index {L : List (List Nat)} (h : L.flatten.Nodup) :
+    (∀ (i j : Nat) (hi : i < L.length) (hj : j < L.length) (p : Nat), p ∈ L[i] → p ∈ L[j] → i = j) ∧ ∀ l ∈ L, l.Nodup := by
+  have h' := (List.pairwise_flatten (R := (· ≠ ·))).mp h
+  refine ⟨?_, h'.1⟩
+  intro i j hi hj p hpi hpj
+  have hp := List.pairwise_iff_getElem.mp h'.2
+  rcases Nat.lt_trichotomy i j with hlt | heq | hgt
+  · exact absurd rfl (hp i j hi hj hlt p hpi p hpj)
+  · exact heq
+  · exact absurd rfl (hp j i hj hi hgt p hpj p hpi)
+
+end AxVerif.Pages
